@@ -23,7 +23,7 @@ import (
 
 // MaxTasks bounds the number of tasks in one simulated run: the caller tasks of the
 // scenario (at most 14) plus the goroutines the library itself starts (go.go).
-const MaxTasks = 48
+const MaxTasks = 256
 
 // Scheduling policies.
 const (
@@ -111,6 +111,7 @@ type Stats struct {
 	Capped      bool   // global step cap reached
 	Deadlock    bool   // every unfinished task is waiting for a lock (L1)
 	DecOverflow bool   // decision list was truncated (run cannot be replayed from the list, only from the seed)
+	TooManyGo   bool   // the library had more goroutines alive at once than there are task slots: the run was wound down and is not judged
 	LibGo       uint64 // goroutines started by the library itself and run as simulated tasks (go.go)
 	ChanOps     uint64 // channel operations of the library completed inside the simulated run (chan.go)
 	ChanWaits   uint64 // ... that had to wait first (cooperatively: the baton went to another task)
@@ -210,6 +211,8 @@ var (
 	pairBits [1 << 16]uint64
 	lastSite [MaxTasks]uint32
 )
+
+var candNext, candPark, candDecide, candHand, candOK [MaxTasks]int32
 
 // Special site ids used by the harness and the sync shim (not library statements).
 const (
@@ -506,7 +509,7 @@ func SyncPoint() {
 //go:norace
 func park(site uint32) {
 	me := cur
-	var cand [MaxTasks]int32
+	cand := &candNext // package-level scratch: consumed before the baton moves
 	n := 0
 	for i := 0; i < nTasks; i++ {
 		if int32(i) != me && status[i] == stRunnable && stalled[i] <= step {
@@ -543,21 +546,31 @@ func LockEvent() {
 
 //go:norace
 func nextOther(me int32) int32 {
-	// prefer tasks not themselves waiting for a lock; choose by PRNG when we have one
-	var cand [MaxTasks]int32
+	// Who gets the baton when the current task cannot go on? First choice: tasks that are not
+	// waiting themselves; second: waiting tasks for which something changed since they last
+	// looked (a lock event after their last attempt) — they are worth retrying; last: anybody.
+	// Chosen by the PRNG when there is one; otherwise (solo passes, replays) the first such task
+	// AFTER the current one in cyclic order, so that nobody starves.
+	cand := &candNext // package-level scratch: consumed before the baton moves
 	n := 0
-	for i := 0; i < nTasks; i++ {
-		if int32(i) != me && status[i] == stRunnable && !lockWait[i] {
+	for pass := 0; pass < 3 && n == 0; pass++ {
+		for k := 1; k < nTasks; k++ {
+			i := (int(me) + k) % nTasks
+			if status[i] != stRunnable {
+				continue
+			}
+			switch pass {
+			case 0:
+				if lockWait[i] {
+					continue
+				}
+			case 1:
+				if waitEpoch[i] == lockEpoch {
+					continue
+				}
+			}
 			cand[n] = int32(i)
 			n++
-		}
-	}
-	if n == 0 {
-		for i := 0; i < nTasks; i++ {
-			if int32(i) != me && status[i] == stRunnable {
-				cand[n] = int32(i)
-				n++
-			}
 		}
 	}
 	if n == 0 {
@@ -630,8 +643,8 @@ func decide(site uint32) {
 		stalled[me] = step + n
 		stats.Stalls++
 	}
-	var cand [MaxTasks]int32
-	n := runnable(&cand, true)
+	cand := &candDecide // package-level scratch: consumed before the baton moves
+	n := runnable(cand, true)
 	if n == 0 {
 		// everybody stalled: lift the stall that expires first
 		best := int32(-1)
@@ -1094,8 +1107,8 @@ func handOff(t int) {
 	curObj[t] = -1
 	lockWait[t] = false
 	step++
-	var cand [MaxTasks]int32
-	n := runnable(&cand, false)
+	cand := &candHand // package-level scratch: consumed before the baton moves
+	n := runnable(cand, false)
 	if n == 0 {
 		allDone = true
 		return
@@ -1150,7 +1163,7 @@ func handOff(t int) {
 		}
 	default:
 		// prefer a task that is not serving a stall; if all are, lift the earliest
-		var ok [MaxTasks]int32
+		ok := &candOK
 		m := 0
 		for i := 0; i < n; i++ {
 			if stalled[cand[i]] <= step {
